@@ -106,6 +106,23 @@ example : dihY (rigid rotEx ⟨1, 2, 3⟩ ⟨0, 0, 0⟩) (rigid rotEx ⟨1, 2, 3
 def orthoEx : Box := ⟨⟨0, 8, 0⟩, ⟨16, 0, 0⟩, ⟨0, 0, -4⟩⟩
 def tricEx : Box := ⟨⟨8, 0, 0⟩, ⟨4, 8, 0⟩, ⟨2, 2, 8⟩⟩
 
+/-- Planar quadruples: if the three bond vectors are coplanar (`det[v₁,v₂,v₃] = 0`, e.g. all atoms in a coordinate
+plane) the `atan2` argument `y` of the dihedral is exactly 0, so the angle is 0 (cis, `x > 0`) or ±π (trans, `x < 0`)
+— never a sign-dependent quantity; `x` is then the product of the two plane normals' common component. -/
+theorem C15_dihedral_planar {R : Type} [CommRing R] (a b c d : V3 R)
+    (h : triple (b.sub a) (c.sub b) (d.sub c) = 0) : dihY a b c d = 0 := by
+  simp only [dihY, cross_cross_dot, h, mul_zero]
+
+/-- all four atoms in the plane `z = 0`: `y = 0` and `x` is the product of the z-components of the two normals -/
+theorem C15_dihedral_planar_z (ax ay bx b_y cx cy dx dy : Rat) :
+    dihY (⟨ax, ay, 0⟩ : Vec) ⟨bx, b_y, 0⟩ ⟨cx, cy, 0⟩ ⟨dx, dy, 0⟩ = 0 ∧
+    dihX (⟨ax, ay, 0⟩ : Vec) ⟨bx, b_y, 0⟩ ⟨cx, cy, 0⟩ ⟨dx, dy, 0⟩ =
+      ((bx - ax) * (cy - b_y) - (b_y - ay) * (cx - bx)) * ((cx - bx) * (dy - cy) - (cy - b_y) * (dx - cx)) := by
+  constructor <;> simp only [dihY, dihX, V3.dot, V3.cross, V3.sub] <;> ring
+
+example : dihedralClass ⟨0, 0, 0⟩ ⟨1, 1, 0⟩ ⟨2, 0, 0⟩ ⟨3, 1, 0⟩ = some "pi" := by
+  simp only [dihedralClass, dihX, dihY, V3.dot, V3.cross, V3.sub]; norm_num
+
 /-! ## Index variants -/
 
 /-- The box the index variants use is the documented one: nothing if `periodic=False`; with
